@@ -220,6 +220,9 @@ def final_values(sp, ops):
 def check(case, ctx):
     sp = copy.deepcopy(case["spec"])
     m = sp["method"]
+    if any(c04.degenerate(c) for c in sp["constraints"]):
+        ctx.count("shifted_operand_cancels_symbolically")
+        return []
     N, M = m["N"], m["M"]
     dc = m["cls"] == "DC"
     rng = np.random.default_rng(case["rng"])
